@@ -118,7 +118,9 @@ class StmtMixin:
         exc = []
         outs = []
         for s2, v in self.ev(s.value, st, exc):
-            if not all(isinstance(t, ast.Attribute) for t in s.targets):
+            if all(isinstance(t, (ast.Tuple, ast.List)) for t in s.targets):
+                pass        # unpacking takes the elements out; the list itself gets no second name
+            elif not all(isinstance(t, ast.Attribute) for t in s.targets):
                 self.check_alias(s.value, v)
             elif v.ty.kind in ("list", "dict") and isinstance(s.value, (ast.Name, ast.Attribute)):
                 self.note("list/dict stored into a field by reference is modelled as a copy (%s)" % ast.unparse(s.value))
